@@ -255,6 +255,11 @@ fn main() {
     // full jars: all entry kinds, all class categories, generated classes drawn from the whole format
     let full = PairCfg { classes: (2, 9), resources: (0, 6), differing_resources: false, simple_classes: false, list_max: 7, premark: 5 };
     run_cases(&slice(0.50), &replay, &mut rep, "pairs", ctx.tier.pick(3_500, 60_000), |rng, rep, case| pair_case(rng, rep, case, "pairs", &full, &scratch));
+    // sizes at which an implementation may change strategy: member lists of up to 90 entries per side, jars of 40-120 classes
+    let wide = PairCfg { classes: (1, 2), resources: (0, 0), differing_resources: false, simple_classes: true, list_max: 90, premark: 5 };
+    run_cases(&slice(0.06), &replay, &mut rep, "wide-members", ctx.tier.pick(250, 4_000), |rng, rep, case| pair_case(rng, rep, case, "wide-members", &wide, &scratch));
+    let many = PairCfg { classes: (40, 120), resources: (0, 20), differing_resources: false, simple_classes: true, list_max: 2, premark: 5 };
+    run_cases(&slice(0.06), &replay, &mut rep, "many-classes", ctx.tier.pick(60, 1_000), |rng, rep, case| pair_case(rng, rep, case, "many-classes", &many, &scratch));
     // member order: long, cheap member lists in every shape
     let order = PairCfg { classes: (3, 8), resources: (0, 1), differing_resources: false, simple_classes: true, list_max: 12, premark: 5 };
     run_cases(&slice(1.0), &replay, &mut rep, "order", ctx.tier.pick(7_500, 150_000), |rng, rep, case| pair_case(rng, rep, case, "order", &order, &scratch));
